@@ -592,6 +592,12 @@ def ResolveBinaryExpressionType(
         if left.GetKind() != right.GetKind():
             Errors.ERROR_INCOMPATIBLE_TYPES.Raise(left, right)
 
+        # Comparing matrices is not defined (and cannot be lowered)
+        if left.IsMatrix():
+            Errors.ERROR_INVALID_BINARY_EXPRESSION_OPERATION.Raise(
+                operation, left, right
+            )
+
         # Cast may be still necessary if we compare integers with floats
         baseType = _GetCommonPrimitiveType(left, right)
 
